@@ -22,6 +22,7 @@ import (
 	"net"
 	"sort"
 	"strings"
+	"sync"
 
 	"github.com/postalsys/muti-metroo/internal/flood"
 	"github.com/postalsys/muti-metroo/internal/identity"
@@ -41,6 +42,7 @@ type wireMsg struct {
 // sender is the harness's stand-in for peer.Manager: it encodes the frame the
 // way a connection's writer does and keeps the bytes.
 type sender struct {
+	mu       sync.Mutex
 	peers    []identity.AgentID
 	wire     []wireMsg
 	sendErrs []string
@@ -48,6 +50,8 @@ type sender struct {
 
 func (s *sender) SendToPeer(peerID identity.AgentID, frame *protocol.Frame) error {
 	b, err := frame.Encode()
+	s.mu.Lock()
+	defer s.mu.Unlock()
 	if err != nil {
 		s.sendErrs = append(s.sendErrs, fmt.Sprintf("type=0x%02x payload=%d: %v", frame.Type, len(frame.Payload), err))
 		return err
@@ -171,6 +175,9 @@ type scenario struct {
 	LongDom  int    `json:"domain_len"`  // length of generated domain labels (total pattern length approx.)
 	LongFwd  int    `json:"forward_len"` // length of forward keys/targets
 	NameLen  int    `json:"name_len"`
+	RuneLen  int    `json:"rune_len,omitempty"` // display name: a rune of this many bytes (2..4) ...
+	RuneAt   int    `json:"rune_at,omitempty"`  // ... of which this many bytes lie before byte 255
+	Rounds   int    `json:"rounds,omitempty"`
 	Origins  int    `json:"origins,omitempty"` // full-table: number of remote origins
 	Name     string `json:"name,omitempty"`
 }
@@ -190,6 +197,35 @@ func label(r *vh.Rand, n int) string {
 		b[i] = ch
 	}
 	return string(b)
+}
+
+// displayName is the configured display name of the announcing agent: ASCII of
+// NameLen bytes, or (RuneLen > 0) 255-RuneAt ASCII bytes, one rune of RuneLen
+// bytes and an ASCII tail, so that the rune sits at a chosen offset relative
+// to the 255-byte limit of the wire format.
+func displayName(r *vh.Rand, sc scenario) string {
+	if sc.RuneLen == 0 {
+		return label(r, sc.NameLen)
+	}
+	runes := map[int]string{2: "\u00e9", 3: "\u20ac", 4: "\U0001F600"}
+	return label(r, 255-sc.RuneAt) + runes[sc.RuneLen] + "tail-" + label(r, 6)
+}
+
+// checkName evaluates the contract of the name cut on the implementation (what
+// the flooder puts on the wire is a prefix of the configured name and fits the
+// one-byte length) and records the correspondence case.
+func (rn *runner) checkName(sc scenario, n *node, cfg string) {
+	out := n.fl.VerifLocalDisplayName()
+	if len(out) > 255 {
+		rn.c.Fail("display-name-too-long", fmt.Sprintf("configured display name of %d bytes is put on the wire with %d bytes (one-byte length)", len(cfg), len(out)), sc)
+	}
+	if !strings.HasPrefix(cfg, out) {
+		rn.c.Fail("display-name-not-prefix", fmt.Sprintf("wire display name %q is not a prefix of the configured one", out), sc)
+	}
+	if len(rn.coq) < rn.maxRec {
+		rn.c.Case(fmt.Sprintf("name/%d/%d/%d", len(cfg), sc.RuneLen, sc.RuneAt), len(cfg) > 255, sc)
+		rn.coq = append(rn.coq, fmt.Sprintf("CName %s %s", cB([]byte(cfg)), cB([]byte(out))))
+	}
 }
 
 // domainPattern builds a distinct valid pattern of roughly total length n (>= 8).
@@ -266,6 +302,9 @@ func payloadsOf(wire []wireMsg) (payloads [][]byte, advs []*protocol.RouteAdvert
 
 func cB(b []byte) string { return cq.B(b) }
 func cRoute(rt protocol.Route) string {
+	if rt.AddressFamily == protocol.AddrFamilyIPv4 && len(rt.Prefix) == 4 { // compact form, see the r4 helper in the cases.v prelude
+		return fmt.Sprintf("(r4 \"%x\" %d %d)", rt.Prefix, rt.PrefixLength, rt.Metric)
+	}
 	return fmt.Sprintf("(%d, (%d, (%s, %d)))", rt.AddressFamily, rt.PrefixLength, cB(rt.Prefix), rt.Metric)
 }
 func cIDs(ids []identity.AgentID) string {
@@ -313,11 +352,13 @@ func (rn *runner) runAnnounce(sc scenario) {
 	c := rn.c
 	r := vh.NewRand(sc.CaseSeed)
 	oID, nID := mkID(r, 0xA0), mkID(r, 0xB0)
-	o := newNode(oID, label(r, sc.NameLen), nID)
+	cfgName := displayName(r, sc)
+	o := newNode(oID, cfgName, nID)
 	nb := newNode(nID, "nb")
 	defer o.fl.Stop()
 	defer nb.fl.Stop()
 	populate(r, o, sc, 1)
+	rn.checkName(sc, o, cfgName)
 	if p := vh.Recover(func() { o.fl.AnnounceLocalRoutes() }); p != "" {
 		c.Fail("announce-panic", "AnnounceLocalRoutes panicked: "+p, sc)
 		return
@@ -510,7 +551,7 @@ func (rn *runner) recordReplay(sc scenario, payloads [][]byte, advs []*protocol.
 func (rn *runner) runFullTable(sc scenario) {
 	r := vh.NewRand(sc.CaseSeed)
 	mID, nID := mkID(r, 0xC0), mkID(r, 0xE0)
-	m := newNode(mID, label(r, sc.NameLen)) // no peers while learning: nothing is re-flooded
+	m := newNode(mID, displayName(r, sc)) // no peers while learning: nothing is re-flooded
 	nb := newNode(nID, "nb")
 	defer m.fl.Stop()
 	defer nb.fl.Stop()
@@ -667,6 +708,105 @@ func (rn *runner) runForward(sc scenario) {
 	}
 }
 
+// runConcurrent: the periodic AnnounceLocalRoutes and a peer-connect
+// SendFullTable run at the same time on real goroutines, Rounds times, for an
+// agent with more than 255 local routes. Every advertisement handed to the
+// connection must carry a sequence number of its own, and the neighbour, fed
+// everything in emission order, must learn exactly the agent's routes.
+func (rn *runner) runConcurrent(sc scenario) {
+	c := rn.c
+	r := vh.NewRand(sc.CaseSeed)
+	oID, nID := mkID(r, 0xA3), mkID(r, 0xB3)
+	o := newNode(oID, label(r, sc.NameLen), nID)
+	nb := newNode(nID, "nb")
+	defer o.fl.Stop()
+	defer nb.fl.Stop()
+	populate(r, o, sc, 1)
+	for i := 0; i < sc.Rounds; i++ {
+		var wg sync.WaitGroup
+		start := make(chan struct{})
+		wg.Add(2)
+		go func() { defer wg.Done(); <-start; o.fl.AnnounceLocalRoutes() }()
+		go func() { defer wg.Done(); <-start; o.fl.SendFullTable(nID) }()
+		close(start)
+		wg.Wait()
+	}
+	_, advs, bad := payloadsOf(o.snd.wire)
+	seqs := map[uint64]int{}
+	for _, a := range advs {
+		if a != nil {
+			seqs[a.Sequence]++
+		}
+	}
+	for s, n := range seqs {
+		if n > 1 {
+			c.Fail("concurrent-sequence-duplicate", fmt.Sprintf("%d advertisements of one origin carry sequence number %d (announce and full-table replay running concurrently)", n, s), sc)
+			break
+		}
+	}
+	var derr []string
+	for _, w := range o.snd.wire {
+		if e := nb.deliver(oID, w.data); e != "" {
+			derr = append(derr, e)
+		}
+	}
+	want := tableOf(o, nil, 1)[oID.String()]
+	want = append(want, fmt.Sprintf("a|%s|1", oID.String()))
+	sort.Strings(want)
+	got := tableOf(nb, nil, 0)[oID.String()]
+	c.Count(fmt.Sprintf("concurrent:frames=%d", len(o.snd.wire)))
+	if d := diff(want, got); d != "" || len(derr) > 0 || bad > 0 || len(o.snd.sendErrs) > 0 {
+		c.Fail("concurrent-mismatch", fmt.Sprintf("concurrent announce and replay, %d frames: neighbour learned %d of %d; %s; decode errors %v", len(o.snd.wire), len(got), len(want), d, derr), sc)
+	}
+}
+
+// sequenceStorm: many goroutines draw sequence numbers from one routing
+// manager at once (as the periodic announcer, peer-connect replays and route
+// management do); every number handed out must be distinct.
+func (rn *runner) sequenceStorm(goroutines, each int) {
+	c := rn.c
+	var id identity.AgentID
+	id[0] = 0x5e
+	mgr := routing.NewManager(id)
+	out := make([][]uint64, goroutines)
+	var wg sync.WaitGroup
+	start := make(chan struct{})
+	for g := 0; g < goroutines; g++ {
+		wg.Add(1)
+		go func(g int) {
+			defer wg.Done()
+			v := make([]uint64, 0, each)
+			<-start
+			for i := 0; i < each; i++ {
+				v = append(v, mgr.IncrementSequence())
+			}
+			out[g] = v
+		}(g)
+	}
+	close(start)
+	wg.Wait()
+	seen := make(map[uint64]struct{}, goroutines*each)
+	dups := 0
+	var first uint64
+	for _, v := range out {
+		for _, s := range v {
+			if _, dup := seen[s]; dup {
+				if dups == 0 {
+					first = s
+				}
+				dups++
+			}
+			seen[s] = struct{}{}
+		}
+	}
+	c.Count("sequence-storm")
+	sc := scenario{Kind: "sequence-storm", Rounds: each, Origins: goroutines}
+	if dups > 0 || mgr.GetCurrentSequence() != uint64(goroutines*each) {
+		c.Fail("sequence-duplicate", fmt.Sprintf("%d goroutines x %d IncrementSequence calls: %d numbers were handed out more than once (first: %d), counter ended at %d instead of %d",
+			goroutines, each, dups, first, mgr.GetCurrentSequence(), goroutines*each), sc)
+	}
+}
+
 func (rn *runner) run(sc scenario) {
 	switch sc.Kind {
 	case "full-table":
@@ -675,6 +815,10 @@ func (rn *runner) run(sc scenario) {
 		rn.runForward(sc)
 	case "two-paths":
 		rn.runTwoPaths(sc)
+	case "concurrent":
+		rn.runConcurrent(sc)
+	case "sequence-storm":
+		rn.sequenceStorm(sc.Origins, sc.Rounds)
 	default:
 		rn.runAnnounce(sc)
 	}
@@ -707,6 +851,17 @@ func main() {
 		{Kind: "announce", Name: "70-long-domains", NDomain: 70, LongDom: 250, NameLen: 4},
 		{Kind: "announce", Name: "40-long-forwards", NForward: 40, LongFwd: 240, NameLen: 255},
 		{Kind: "announce", Name: "display-name-300-bytes", NCIDR: 3, NDomain: 2, LongDom: 12, NameLen: 300},
+		{Kind: "announce", Name: "display-name-2-byte-rune-0-before-255", NCIDR: 2, RuneLen: 2, RuneAt: 0},
+		{Kind: "announce", Name: "display-name-2-byte-rune-1-before-255", NCIDR: 2, RuneLen: 2, RuneAt: 1},
+		{Kind: "announce", Name: "display-name-3-byte-rune-0-before-255", NCIDR: 2, RuneLen: 3, RuneAt: 0},
+		{Kind: "announce", Name: "display-name-3-byte-rune-1-before-255", NCIDR: 2, RuneLen: 3, RuneAt: 1},
+		{Kind: "announce", Name: "display-name-3-byte-rune-2-before-255", NCIDR: 2, RuneLen: 3, RuneAt: 2},
+		{Kind: "announce", Name: "display-name-4-byte-rune-0-before-255", NCIDR: 2, RuneLen: 4, RuneAt: 0},
+		{Kind: "announce", Name: "display-name-4-byte-rune-1-before-255", NCIDR: 2, RuneLen: 4, RuneAt: 1},
+		{Kind: "announce", Name: "display-name-4-byte-rune-2-before-255", NCIDR: 2, RuneLen: 4, RuneAt: 2},
+		{Kind: "announce", Name: "display-name-4-byte-rune-3-before-255", NCIDR: 2, RuneLen: 4, RuneAt: 3},
+		{Kind: "full-table", Name: "replay-own-routes-rune-name", NCIDR: 6, RuneLen: 4, RuneAt: 2, Origins: 0},
+		{Kind: "concurrent", Name: "announce-and-replay-300-routes", NCIDR: 300, NameLen: 4, Rounds: 40},
 		{Kind: "announce", Name: "domain-patterns-300-bytes", NCIDR: 2, NDomain: 3, LongDom: 300, NameLen: 4},
 		{Kind: "announce", Name: "forward-keys-300-bytes", NCIDR: 2, NForward: 3, LongFwd: 300, NameLen: 4},
 		{Kind: "forward", Name: "long-domains-after-255-hops", NDomain: 70, LongDom: 250, NameLen: 255},
@@ -715,22 +870,23 @@ func main() {
 		{Kind: "two-paths", Name: "same-advertisement-via-two-peers-equal-metric", NCIDR: 3, NDomain: 1, LongDom: 12, Origins: 1, NameLen: 4},
 		{Kind: "two-paths", Name: "presence-only-via-two-peers", Origins: 2, NameLen: 4},
 		{Kind: "two-paths", Name: "260-routes-via-two-peers", NCIDR: 260, Origins: 2, NameLen: 4},
-		{Kind: "full-table", Name: "two-origins-300-each", NCIDR: 300, NDomain: 3, NForward: 3, LongDom: 12, LongFwd: 6, Origins: 2, NameLen: 4},
+		{Kind: "full-table", Name: "two-origins-257-each", NCIDR: 257, NDomain: 3, NForward: 3, LongDom: 12, LongFwd: 6, Origins: 2, NameLen: 4},
 		{Kind: "full-table", Name: "long-domains", NDomain: 80, LongDom: 250, LongFwd: 6, Origins: 1, NameLen: 4},
 	}
 	for i := range fixed {
 		fixed[i].CaseSeed = int64(1000 + i)
 		rn.run(fixed[i])
 	}
+	rn.sequenceStorm(16, c.N(20000, 200000))
 
 	sizes := []int{0, 0, 1, 2, 3, 50, 127, 128, 253, 254, 255, 256, 257, 300}
 	if c.Thorough() {
 		sizes = append(sizes, 509, 510, 511, 512, 600, 1000)
 	}
 	small := []int{0, 0, 1, 2, 3, 10, 40}
-	n := c.N(20, 600)
+	n := c.N(16, 600)
 	for i := 0; i < n; i++ {
-		sc := scenario{Kind: "announce", CaseSeed: int64(c.Rand.U64() >> 1), NameLen: c.Rand.Pick(0, 1, 8, 254, 255, 256, 300),
+		sc := scenario{Kind: "announce", CaseSeed: int64(c.Rand.U64() >> 1), NameLen: c.Rand.Pick(0, 1, 8, 254, 255, 256, 300), RuneLen: c.Rand.Pick(0, 0, 0, 2, 3, 4), RuneAt: c.Rand.Intn(4),
 			LongDom: c.Rand.Pick(8, 12, 30, 100, 200, 250, 253, 255, 256, 300), LongFwd: c.Rand.Pick(1, 6, 30, 120, 240, 249, 250, 251, 300)}
 		switch c.Rand.Intn(5) {
 		case 0:
@@ -767,7 +923,8 @@ func main() {
 func (rn *runner) writeCases() {
 	var sb strings.Builder
 	sb.WriteString("From Coq Require Import List NArith String.\nFrom MM Require Import Lib.Bytes Model.Frames Model.Announce.\nImport ListNotations.\n")
-	sb.WriteString("Local Open Scope N_scope.\nLocal Open Scope string_scope.\n" + cq.Prelude)
+	sb.WriteString("Local Open Scope N_scope.\nLocal Open Scope string_scope.\n" + cq.Prelude +
+		"Definition r4 (s : string) (pl m : N) : Route := (1, (pl, (bytes_of_hex s, m))).\n")
 	const chunk = 10
 	var names []string
 	for i := 0; i < len(rn.coq); i += chunk {
